@@ -84,9 +84,9 @@ theorem OwnerInv.append_new {s s' : State} (ho : OwnerInv s) (hi : DocInv s) (k 
       rw [find_append_new s.ents x hnew, hk, hqk]
       simp [hal, how]
 
-theorem newEnt_OwnerInv (s : State) (k h seed : Nat) (r : Option Str) (hi : DocInv s) (ho : OwnerInv s) :
-    OwnerInv (newEnt s k h seed r).1 := by
-  obtain ⟨s', hs'⟩ : ∃ s', s' = (newEnt s k h seed r).1 := ⟨_, rfl⟩
+theorem newEnt_OwnerInv (s : State) (k h seed : Nat) (r : Option Str) (hi : DocInv s) (ho : OwnerInv s)
+    (subs : List Nat) : OwnerInv (newEnt s k h seed r subs).1 := by
+  obtain ⟨s', hs'⟩ : ∃ s', s' = (newEnt s k h seed r subs).1 := ⟨_, rfl⟩
   rw [← hs']
   unfold newEnt at hs'
   split at hs'
@@ -95,7 +95,7 @@ theorem newEnt_OwnerInv (s : State) (k h seed : Nat) (r : Option Str) (hi : DocI
     · rename_i hf
       have hfr := freshOk_one hf
       have hnew : h ∉ hs s := fun hm => by have := hi.1.2 h hm; omega
-      exact ho.append_new hi k ⟨h, true, some k, true, r, isPaperBr s k⟩ (by rw [hs']) (by rw [hs']) hnew rfl rfl
+      exact ho.append_new hi k ⟨h, true, some k, true, r, isPaperBr s k, subs⟩ (by rw [hs']) (by rw [hs']) hnew rfl rfl
     · rw [hs']; exact ho
 
 theorem unlinkCore_OwnerInv {s s' : State} {k e : Nat} (h : unlinkCore s k e = some s')
@@ -237,12 +237,141 @@ theorem OwnerInv.newKey {s s' : State} (ho : OwnerInv s) (br : Nat) (hS : s'.spa
     exact ho p hp x hx
   · simp at hx
 
+theorem find_append_fresh (ents xs : List Ent) (h : Nat) (hm : h ∉ ents.map (·.h)) :
+    (ents ++ xs).find? (·.h = h) = xs.find? (·.h = h) := by
+  rw [List.find?_append]
+  have : ents.find? (·.h = h) = none := by
+    apply List.find?_eq_none.mpr
+    intro e he heq
+    apply hm
+    simp only [List.mem_map]
+    exact ⟨e, he, by simpa using heq⟩
+  simp [this]
+
+theorem find_append_known (ents xs : List Ent) (h : Nat) (hm : h ∈ ents.map (·.h)) :
+    (ents ++ xs).find? (·.h = h) = ents.find? (·.h = h) := by
+  rw [List.find?_append]
+  simp only [List.mem_map] at hm
+  obtain ⟨e, he, heq⟩ := hm
+  cases hf : ents.find? (·.h = h) with
+  | none =>
+    exfalso
+    have := List.find?_eq_none.mp hf e he
+    simp [heq] at this
+  | some y => simp
+
+theorem mem_setSpace_appendList {sp : List (Nat × List Nat)} {k : Nat} {l : List Nat} {p : Nat × List Nat}
+    (hp : p ∈ setSpace sp k (· ++ l)) : ∃ q ∈ sp, p.1 = q.1 ∧ (p.2 = q.2 ∨ (q.1 = k ∧ p.2 = q.2 ++ l)) :=
+  mem_setSpace hp
+
+/-- OwnerInv after appending a list of fresh live entities (all owned by k) to space k -/
+theorem OwnerInv.append_list {s s' : State} (ho : OwnerInv s) (hi : DocInv s) (k : Nat) (xs : List Ent)
+    (hE : s'.ents = s.ents ++ xs) (hS : s'.spaces = setSpace s.spaces k (· ++ xs.map (·.h)))
+    (hnew : ∀ x ∈ xs, x.h ∉ hs s) (hal : ∀ x ∈ xs, x.alive = true ∧ x.owner = some k) : OwnerInv s' := by
+  intro p hp y hy
+  rw [hS] at hp
+  obtain ⟨q, hq, hk, hcase⟩ := mem_setSpace_appendList hp
+  have old : ∀ z, z ∈ q.2 → keepInSpace s' q.1 z = true := by
+    intro z hz
+    have hzH : z ∈ hs s := hi.2.2.2.2 z (by
+      simp only [allH, List.mem_flatten, List.mem_map]; exact ⟨q.2, ⟨q, hq, rfl⟩, hz⟩)
+    rw [keepInSpace_congr (s := s) q.1 z (by
+      simp only [findEnt, hE]; exact find_append_known _ _ _ hzH)]
+    exact ho q hq z hz
+  rcases hcase with h2 | ⟨hqk, h2⟩
+  · rw [hk]; rw [h2] at hy; exact old y hy
+  · rw [h2] at hy
+    simp only [List.mem_append] at hy
+    rcases hy with hy | hy
+    · rw [hk]; exact old y hy
+    · simp only [List.mem_map] at hy
+      obtain ⟨x, hx, rfl⟩ := hy
+      simp only [keepInSpace, isAlive, ownerOf, findEnt, hE]
+      rw [find_append_fresh s.ents xs x.h (hnew x hx), hk, hqk]
+      cases hf : xs.find? (·.h = x.h) with
+      | none =>
+        have := List.find?_eq_none.mp hf x hx
+        simp at this
+      | some z =>
+        have hz := List.mem_of_find?_eq_some hf
+        simp [(hal z hz).1, (hal z hz).2]
+
+theorem HInv.append {s s' : State} (h : HInv s) (l : List Nat) (heq : hs s' = hs s ++ l) (hl : l.Nodup)
+    (hfr : ∀ x ∈ l, (s.next ≤ x ∨ x ∉ hs s) ∧ x < s'.next) (hle : s.next ≤ s'.next) : HInv s' := by
+  obtain ⟨hn, hb⟩ := h
+  refine ⟨?_, ?_⟩
+  · rw [heq]
+    refine List.nodup_append.mpr ⟨hn, hl, ?_⟩
+    intro a ha b hb' hab
+    subst hab
+    rcases (hfr a hb').1 with h1 | h1
+    · have := hb a ha; omega
+    · exact h1 ha
+  · intro y hy; rw [heq] at hy
+    simp only [List.mem_append] at hy
+    rcases hy with hy | hy
+    · have := hb y hy; omega
+    · exact (hfr y hy).2
+
+theorem explodeEnts_props (s : State) (k : Nat) (src : List Nat) (news : List (Nat × List Nat)) (texts : List Nat) :
+    ∀ x ∈ explodeEnts s k src news texts, x.alive = true ∧ x.owner = some k ∧ x.indb = true := by
+  intro x hx
+  simp only [explodeEnts, List.mem_append, List.mem_map] at hx
+  rcases hx with ⟨p, _, rfl⟩ | ⟨p, _, rfl⟩ <;> exact ⟨rfl, rfl, rfl⟩
+
+theorem dropAttribs_OwnerInv (s : State) (e : Nat) (ho : OwnerInv s) : OwnerInv (dropAttribs s e) := by
+  intro p hp x hx
+  have := ho p hp x hx
+  have hf : findEnt (dropAttribs s e) x =
+      (findEnt s x).map (fun y => if y.h = e then { y with subs := y.subs.drop (y.subs.length - 1) } else y) := by
+    simp only [findEnt, dropAttribs, setEnt, List.find?_map, Function.comp_def]
+    have hfun : (fun y : Ent => decide ((if y.h = e then { y with subs := y.subs.drop (y.subs.length - 1) } else y).h = x)) =
+        (fun y : Ent => decide (y.h = x)) := by
+      funext y; split <;> rfl
+    rw [hfun]
+  simp only [keepInSpace, isAlive, ownerOf, hf] at this ⊢
+  cases hfe : findEnt s x with
+  | none => simp [hfe] at this ⊢
+  | some y =>
+    simp only [hfe, Option.map_some] at this ⊢
+    split <;> exact this
+
+theorem explodeCore_OwnerInv {s s' : State} {e k : Nat} {src : List Nat} {news : List (Nat × List Nat)} {texts : List Nat}
+    {seed : Nat} (hi : DocInv s) (ho : OwnerInv s) (hshape : shapeOk s src news = true)
+    (hfresh : freshOk s ((news.map (fun p => p.1 :: p.2)).flatten) seed = true) (htexts : textsOk s texts = true)
+    (hcore : explodeCore s e k src news texts seed = some s') : OwnerInv s' := by
+  obtain ⟨hn, hb⟩ := explode_new_handles hfresh htexts
+  have hhs := explodeEnts_hs s k src news texts (shapeOk_len hshape)
+  obtain ⟨s2, h2, rfl⟩ := explodeCore_parts hcore
+  apply dropAttribs_OwnerInv
+  apply destroyEnt_OwnerInv
+  obtain ⟨s1, hs1⟩ : ∃ s1 : State, s1 = explodeMid s k src news texts seed := ⟨_, rfl⟩
+  rw [← hs1] at h2
+  have hE : s1.ents = s.ents ++ explodeEnts s k src news texts := by rw [hs1]; rfl
+  have hS : s1.spaces = setSpace s.spaces k (· ++ (explodeEnts s k src news texts).map (·.h)) := by rw [hs1, hhs]; rfl
+  have hH : hs s1 = hs s ++ (news.map (·.1) ++ texts) := by simp only [hs, hE, List.map_append, hhs]
+  have hn1 : s1.next = seed := by rw [hs1]; rfl
+  have hnewh : ∀ x ∈ explodeEnts s k src news texts, x.h ∉ hs s := by
+    intro x hx hm
+    have h1 : x.h ∈ news.map (·.1) ++ texts := by rw [← hhs]; exact List.mem_map_of_mem hx
+    rcases (hb x.h h1).1 with h3 | h3
+    · have := hi.1.2 x.h hm; omega
+    · exact h3 hm
+  have ho1 : OwnerInv s1 := ho.append_list hi k _ hE hS hnewh
+    (fun x hx => ⟨(explodeEnts_props s k src news texts x hx).1, (explodeEnts_props s k src news texts x hx).2.1⟩)
+  have hH1 : HInv s1 := hi.1.append _ hH hn
+    (fun x hx => by rw [hn1]; exact hb x hx) (by rw [hn1]; exact freshOk_seed hfresh)
+  have hS1 : SInv s1.spaces (hs s1) s1.next := by
+    rw [hn1, hs1]
+    exact explodeMid_SInv hi.1 hi.2 hshape hfresh htexts
+  exact unlinkCore_OwnerInv h2 ⟨hH1, hS1⟩ ho1
+
 /-- ownership consistency is preserved by every operation -/
 theorem step_OwnerInv (s : State) (op : Op) (hi : DocInv s) (ho : OwnerInv s) (hok : OpOk s op) :
     OwnerInv (step s op).1 := by
   cases op with
-  | add k h seed => exact newEnt_OwnerInv _ _ _ _ _ hi ho
-  | ins k n h seed => exact newEnt_OwnerInv _ _ _ _ _ hi ho
+  | add k h seed => exact newEnt_OwnerInv _ _ _ _ _ hi ho _
+  | ins k n h seed => exact newEnt_OwnerInv _ _ _ _ _ hi ho _
   | unlink k e =>
     simp only [step]; split
     · rename_i h1; exact unlinkCore_OwnerInv h1 hi ho
@@ -267,12 +396,50 @@ theorem step_OwnerInv (s : State) (op : Op) (hi : DocInv s) (ho : OwnerInv s) (h
     · rename_i s1 h1
       exact destroyEnt_OwnerInv s1 e (unlinkCore_OwnerInv h1 hi ho)
   | destroy e => exact destroyEnt_OwnerInv s e ho
-  | copy e k h seed =>
+  | copy e k h subs seed =>
     simp only [step]; split
     · split
-      · exact newEnt_OwnerInv _ _ _ _ _ hi ho
+      · split
+        · exact newEnt_OwnerInv _ _ _ _ _ hi ho _
+        · exact ho
       · exact ho
     · exact ho
+  | addL k r h subs seed => exact newEnt_OwnerInv _ _ _ _ _ hi ho _
+  | explode e news seed =>
+    rcases explode_cases s e news seed with ⟨er, h0⟩ | ⟨x, name, k, b, s', hx, hal, hr, ho', hsp, hb, hshape, hfresh, htexts, hcore, hstep⟩
+    · rw [h0]; exact ho
+    · rw [hstep]
+      exact explodeCore_OwnerInv hi ho hshape hfresh htexts hcore
+  | audit seed =>
+    simp only [step]; split
+    · exact OwnerInv.of_same (s := (audit s).1) (audit_clean s).1 rfl rfl
+    · exact ho
+  | addEntry t n seed =>
+    simp only [step]; split
+    · exact ho
+    · split
+      · exact ho.of_same rfl rfl
+      · exact ho
+  | delEntry t n => simp only [step]; split <;> first | exact ho | exact ho.of_same rfl rfl
+  | dupEntry t a b seed =>
+    simp only [step]; split
+    · exact ho
+    · split
+      · exact ho.of_same rfl rfl
+      · exact ho
+  | newGroup n h seed =>
+    simp only [step]; split
+    · exact ho
+    · split
+      · exact ho.of_same rfl rfl
+      · exact ho
+  | setGroup n ms =>
+    simp only [step]; split
+    · exact ho
+    · split
+      · exact ho.of_same rfl rfl
+      · exact ho
+  | delGroup n => simp only [step]; split <;> first | exact ho | exact ho.of_same rfl rfl
   | purge =>
     obtain ⟨s', hs'⟩ : ∃ s', s' = (step s .purge).1 := ⟨_, rfl⟩
     rw [← hs']
